@@ -11,7 +11,8 @@ from checks import c14
 def src(c):
     a = [f'#[{t["n"]}({t["cp"]}{", E1" if t["err"] != "-" else ""})]' for t in c["traits"]]
     n = len(c["rms"])
-    a.append("#[child_parents(" + ", ".join(f"p{j}: P" for j in range(1, max(n, 1) + 1)) + ")]")
+    if c["tattrs"]:
+        a.append("#[child_parents(" + ", ".join(f"p{j}: P" for j in range(1, max(n, 1) + 1)) + ")]")
     fs = []
     for j, m in enumerate(c["rms"], 1):
         fs.append(" ".join(c14.m_attrs(m) + [c14.m_instr(x, j) for x in sorted(m["own"])]) + f" s{j}: V,")
@@ -37,6 +38,8 @@ def events(c, rid, run):
 
 def run_stream(ctx, tier, seed, cap=None):
     cases = streams.tlc_cases(ctx, "MC_Pipe", "MC_Pipe_q", cap, seed)
+    # every documented trait instruction name (one instruction per input)
+    cases = cases + streams.tlc_cases(ctx, "MC_Pipe", "MC_Pipe_n", (cap // 2) if cap else None, seed)
     if tier != "quick":
         # three members (one trait instruction): every placement of repeat / stop_repeat / skip_repeat over three members
         cases = cases + streams.tlc_cases(ctx, "MC_Pipe", "MC_Pipe_t", 150000, seed)
